@@ -125,6 +125,30 @@ def classify(ctx, fn):
                             # only if sets is a single point or the whole space minus earlier points
                             explore_ne(ne_t, sets, c, seen | {bb})
                             return
+                # key.iter().all(|&b| b == c)  ==  (key == [c; 32]);  key.iter().any(|&b| b != c) is its negation
+                if util.is_call(d) and d[1].split("::")[-1] in ("all", "any") and "Iterator" in d[1] and len(tg) == 1 and tg[0][0] == 0:
+                    it = d[2][0]
+                    if strip(it)[0] == "mutref":
+                        it = se.call_old.get((d[3][:2], 0))
+                    it = strip(it) if it is not None else None
+                    cl = d[2][1]
+                    cval = None
+                    if it is not None and util.is_call(it, "core::slice::<impl [T]>::iter") and canon(ctx, se, it[2][0]) == ("param", 1) and cl[0] == "agg" and cl[1] == "closure" and not cl[4]:
+                        cse = ctx.flat.run(cl[2])
+                        r = util.numnorm(cse.ret) if cse is not None else None
+                        want = "Eq" if d[1].endswith("all") else "Ne"
+                        if r is not None and r[0] == "binop" and r[1] == want and r[2] == ("param", 2) and r[3][0] == "int":
+                            cval = r[3][1]
+                    if cval is not None:
+                        c = [cval] * 32
+                        is_eq = d[1].endswith("all") != neg
+                        t_true, t_false = info["otherwise"], tg[0][1]
+                        eq_t, ne_t = (t_true, t_false) if is_eq else (t_false, t_true)
+                        es = [s_ & frozenset([c[i]]) for i, s_ in enumerate(sets)]
+                        if all(es):
+                            explore(eq_t, es, seen | {bb})
+                        explore_ne(ne_t, sets, c, seen | {bb})
+                        return
                 raise Undecided("unrecognised decision %s" % show(d, maxdepth=3))
             if k == "return":
                 raise Undecided("path without a verdict")
